@@ -12,6 +12,7 @@ import TemprenModel.Model.Bind
 import TemprenModel.Model.Template
 import TemprenModel.Model.Printer
 import TemprenModel.Model.Pipeline
+import TemprenModel.Model.Prompt
 open Tempren Tempren.Proto
 
 def hexNibble (c : Char) : Option Nat :=
@@ -534,6 +535,10 @@ def handle (line : String) : String :=
     | _, _, _ => "bad-op"
   | ["run", renamer, strategy, fault, tree, files, gens, answers] =>
     runModel renamer strategy fault tree files gens answers
+  | ["prompt", line] =>
+    match decStr line with
+    | some l => (match promptParse l with | some r => encStr r | none => "none")
+    | none => "bad-op"
   | _ => "bad-op"
 
 partial def loop (h : IO.FS.Stream) (out : IO.FS.Stream) : IO Unit := do
